@@ -491,6 +491,20 @@ func (n *nilAn) scan(fn *ssa.Function) {
 					n.markN(x, o)
 				}
 			case *ssa.Phi:
+				// "optional decoded value": nil on one edge, decoded data on another
+				if isPtrLike(x.Type()) {
+					hasNil, hasD := false, false
+					for _, e := range x.Edges {
+						if c, ok := e.(*ssa.Const); ok && c.IsNil() {
+							hasNil = true
+						} else if n.dvals[e] || n.decodedMem(e) {
+							hasD = true
+						}
+					}
+					if hasNil && hasD {
+						n.markN(x, "nil when the decoded optional item is absent, in "+fname)
+					}
+				}
 				for i, e := range x.Edges {
 					if n.dvals[e] {
 						n.markD(x)
